@@ -15,18 +15,19 @@ def oracle(tasks, t):
     ids = set(map(id, tasks))
     preds = {x: [p for p, d in x.input_task_list if id(p) in ids] for x in tasks}
     succs = {x: [s for s, d in x.output_task_list if id(s) in ids] for x in tasks}
-    order, seen = [], set()
-
-    def visit(x):
-        if id(x) in seen:
-            return
-        seen.add(id(x))
-        for p in preds[x]:
-            visit(p)
+    # topological order without recursion (chains of a thousand and more tasks)
+    order = []
+    indeg = {x: len(preds[x]) for x in tasks}
+    ready = [x for x in tasks if indeg[x] == 0]
+    while ready:
+        x = ready.pop()
         order.append(x)
-
-    for x in tasks:
-        visit(x)
+        for s_ in succs[x]:
+            indeg[s_] -= 1
+            if indeg[s_] == 0:
+                ready.append(s_)
+    if len(order) != len(tasks):
+        raise ValueError("cyclic network handed to the oracle")
     est, eft = {}, {}
     for x in order:
         est[x] = max([t] + [eft[p] for p in preds[x]])
@@ -163,8 +164,18 @@ def make_case(prop, seed, i, tier):
         spec["sim"]["absence"] = sorted(rng.sample(range(0, 10), rng.randint(1, 4)))
         return dict(prop=prop, i=i, kind="pause-edit-resume", spec=spec, k=rng.choice([2, 3, 4, 5, 6, 8]),
                     edit=rng.choice(["remove", "insert", "none"]), ins=sorted(rng.sample(range(0, 8), rng.randint(1, 2))))
+    if i % 30 == 13:
+        # beyond the usual sizes, simulated: long runs, wide fan-in, 30 and more tasks (FS links only)
+        spec = G.gen_scale(rng, rng.choice(["long", "wide", "one_component", "many_resources", "numeric_ids"]), kinds=(G.FS,))
+        return dict(prop=prop, i=i, kind="sim", spec=spec, family="scale:" + spec["scale"])
     if i % 3 == 2:
         spec = G.gen_fs(rng, max_tasks=12 if big else 9)
+        r_ = rng.random()
+        if r_ < 0.08:
+            for t in spec["tasks"]:
+                t["work"] = t["work"] * rng.choice([1000.0, 3000.0])     # schedules of tens of thousands of time units
+        elif r_ < 0.12:
+            spec = G.gen_fs_chain(rng.choice([300, 1100, 1500]), work=rng.choice([1.0, 2.5]))   # a very long chain (no simulation)
         ops = []
         t = 0
         for _ in range(rng.randint(2, 8)):
